@@ -437,6 +437,22 @@ class DictTransactionManager(ModbusTransactionManager):
         """
         return iterkeys(self.transactions)
 
+    def getNextTID(self):
+        """ Retrieve the next unique transaction identifier
+
+        An identifier that still waits for its reply is skipped: issuing
+        it again would replace the pending entry, which then never
+        completes.
+
+        :returns: The next unique transaction identifier
+        """
+        tid = super(DictTransactionManager, self).getNextTID()
+        for _ in range(0xffff):
+            if tid not in self.transactions:
+                break
+            tid = super(DictTransactionManager, self).getNextTID()
+        return tid
+
     def addTransaction(self, request, tid=None):
         """ Adds a transaction to the handler
 
